@@ -29,7 +29,7 @@ type fakeListener struct {
 	accepted bool
 	closed   bool
 	closes   int
-	failHard bool // after the scripted connections Accept fails with a permanent error
+	failHard bool   // after the scripted connections Accept fails with a permanent error
 	onAccept func() // runs inside Accept just before a scripted connection is returned
 }
 
